@@ -187,4 +187,5 @@ def _replay_bc(scn):
 def post(tier, seed, ctx):
     """code -> spec: randomly driven calls (up to 4-d, axes up to 5 labels) recorded and validated by TLC against spec/TraceOps.tla"""
     from .. import trace_ops
-    trace_ops.validate(PROP, tier, seed, ctx, ['reshape'])
+    # ... plus every top-level call of these operations made by the repository's tests and docstring examples (harness/pytest_recorder.py)
+    trace_ops.validate(PROP, tier, seed, ctx, ['reshape'], repo_tests="reshape")
